@@ -369,6 +369,17 @@ func genC04(tier, out string, sum *Summary) {
 	for _, e := range []string{"$1", "$0abc", "let $1 = a in $1", "a[?$1]", "`[1, 2]]`", "`{\"a\": 1}}`", "`\"abc\"}`", "`1]`", "`1 2`", "`[1],`", "\"\\ud800\"", "a.\"x\\ud83d\"", "\"\\u12\"", "\"\\uZZZZ\"", "\"\\x\"", "let", "in", "let in", "in a", "a in b", "let $a = b", "1", "-1", "a - 1", "a.1", "a.@", "a.$", "a.'b'", "@.@", "[1,2]", "a[1 2]", "a[1,2]", "a[*", "a[ *]", "a[* ]", "a. *", "a.* *", "a..*", "a[]]", "a[[]", "a[?]", "a[? ]", "&a", "a&b", "a & b", "a |& b", "a =! b", "a = b", "a === b", "a <> b", "a >< b", "a !b", "!", "a!", "a ! b", "()", "(,)", "abs(,)", "contains(a,)", "abs(,a)", "{}", "{,}", "{a}", "{a:}", "{a:b,}", "{a b}", "{\"a\" b}", "{a::b}", "'", "''x", "'a''b'", "\"", "\"\"x", "`", "``", "` `"} {
 		emit(e, "invalid")
 	}
+	// every code point class inside every kind of literal and name, and every legal operand of every context
+	for _, cp := range []string{"\ufffd", "\u00e9", "\u0080", "\u07ff", "\u0800", "\uffff", "\U00010000", "\U0010ffff", "\u2028", "\u00a0", "\u007f", "\ufeff", "\u0301"} {
+		for _, form := range []string{"'%s'", "'a%sb'", "\"%s\"", "a.\"x%s\"", "`\"%s\"`", "`{\"%s\": 1}`", "{\"%s\": a}", "a[?b == '%s']", "a[?b == `\"%s\"`].c", "'\\%s'", "contains(a, '%s')", "let $v = '%s' in $v"} {
+			emit(fmt.Sprintf(form, cp), "valid")
+		}
+	}
+	for _, inner := range []string{"a | b", "a || b", "a && b", "!a", "a == b", "a + b", "- a", "let $x = a in $x", "a[?b | c]", "[a, b]", "{k: a}", "abs(a)", "a[*].b", "*", "@", "$", "`1`", "'x'", "a.b[0]", "(a)", "a[0:1]", "[?a]", "[]", "[*]", "a | b | c"} {
+		for _, ctx := range []string{"x[?%s]", "[?%s]", "x[*][?%s].y", "(%s)", "[%s]", "[a, %s]", "{k: %s}", "abs(%s)", "sort_by(x, &%s)", "map(&%s, x)", "let $v = %s in $v", "let $v = a in %s", "x | %s", "%s | x", "not_null(a, %s)", "x[?a == %s]", "!(%s)", "x[?(%s)]", "x.[%s]", "x.{k: %s}"} {
+			emit(fmt.Sprintf(ctx, inner), "valid")
+		}
+	}
 	// bounded-exhaustive short strings over the characters that matter to the lexer: the model decides membership
 	alpha := []string{"a", "1", "_", "$", "&", "|", "*", ".", "[", "]", "(", ")", "{", "}", ",", ":", "'", "\"", "`", "@", "!", "<", "=", ">", "-", "+", "/", "%", "?", " ", "\\", "é"}
 	for _, x := range alpha {
